@@ -157,6 +157,8 @@ def parse_obs(out):
             final = 'aborted:term:' + w[7:]
         elif w.startswith('err:cr:'):
             final = 'aborted:' + w[7:]
+        elif w == 'err:undef':
+            final = 'aborted:unknown'
         else:
             final = 'unparsed:' + w
     return ev, final, pend, extra
@@ -201,10 +203,25 @@ class P(Property):
         out = re.sub(r'head:%s[0-9a-f]*' % REQ.hex(), 'head:REQ', out)
         out = re.sub(r'head:%s[0-9a-f]*' % RESP.hex(), 'head:RESP', out)
         out = re.sub(r'trailers:000023782d74[0-9a-f]*', 'trailers:T', out)
+        acts = case.split()[2].split(',') if len(case.split()) > 2 else []
+        if any(a[0] in 'XIT' for a in acts):
+            # when the transport itself fails, whether and how the connection driver closes is its own reaction (C05)
+            out = re.sub(r'close=\S+', 'close=*', out)
         return out
 
     def cases(self, tier, rng):
         out = []
+        # how else a stream can fail: StreamErrorIncoming::Unknown (K), connection closed by the peer (X<code>), failing in
+        # a way h3 does not know (XU), internally (I), by timeout (T): all sequences up to length 2, plus the seeded families
+        for role in ('s', 'c'):
+            for k in range(0, 3):
+                for seq in itertools.product(NAMES, repeat=k):
+                    fr = seq_bytes(role, seq)
+                    for e in ('K', 'XU', 'I', 'T', 'X256'):
+                        out.append(batch(role, fr, e))
+                        if k >= 1:
+                            out.append(per_frame(role, fr, e))
+                            out.append(random_split(rng, role, fr, e, late_end=rng.random() < 0.5))
         n = 4 if tier == 'quick' else 6
         for role in ('s', 'c'):
             for k in range(0, n + 1):
@@ -218,7 +235,7 @@ class P(Property):
                         out.append(batch(role, fr, e))
                         if k >= 2 and (tier != 'quick' or k <= 3 or e != 'R268'):
                             out.append(per_frame(role, fr, e))
-                    e = rng.choice(['F', 'F', 'R268', 'R0', 'R256', 'R%d' % 2 ** 40, ''])
+                    e = rng.choice(['F', 'F', 'F', 'R268', 'R0', 'R256', 'R%d' % 2 ** 40, 'K', 'XU', 'I', 'T', ''])
                     if k >= 1:
                         out.append(random_split(rng, role, fr, e, late_end=rng.random() < 0.4))
                     # the application split()s the stream after the head / after the first piece of body
@@ -272,11 +289,11 @@ class P(Property):
         sev, sfinal = parse_spec(spec)
         ending = ''
         for a in acts:
-            if a[0] in 'FRX':
+            if a[0] in 'FRXIKT':
                 ending = a
                 break
         last_call = max([i for i, a in enumerate(acts) if a == 'p'], default=-1)
-        complete = last_call >= 0 and not any(a[0] in 'cFRX' for a in acts[last_call + 1:])
+        complete = last_call >= 0 and not any(a[0] in 'cFRXIKT' for a in acts[last_call + 1:])
         if ev != sev[:len(ev)]:
             return False
         if sfinal == 'outofscope':
@@ -284,16 +301,16 @@ class P(Property):
         if extra.get('stop', '-') != '-':
             return False
         if final is None:
-            if extra.get('close', '-') != '-' or extra.get('reset', '-') != '-':
+            if extra.get('close', '-') not in ('-', '*') or extra.get('reset', '-') != '-':
                 return False
             if pend and complete:
                 return sfinal == 'waiting' and ev == sev
             return True
         if final == 'done':
-            return sfinal == 'done' and ev == sev and extra.get('close') == '-' and extra.get('reset') == '-'
+            return sfinal == 'done' and ev == sev and extra.get('close') in ('-', '*') and extra.get('reset') == '-'
         if final.startswith('connerr:'):
             code = final[8:]
-            if extra.get('close') != code:
+            if extra.get('close') not in (code, '*'):
                 return False          # the connection must be closed with that very code
             if sfinal.startswith('connerr:') and code in sfinal[8:].split('/'):
                 if ev == sev:
@@ -303,12 +320,14 @@ class P(Property):
             return False
         if final.startswith('streamerr:'):
             return (sfinal == 'incomplete' and final == 'streamerr:269' and ev == sev and extra.get('reset') == '269'
-                    and extra.get('close') == '-')
+                    and extra.get('close') in ('-', '*'))
         if final.startswith('aborted:'):
-            if not ending or ending[0] not in 'RX':
+            # the stream / the transport failed: exactly that failure is reported, after any prefix of the events; h3 raises
+            # no connection error of its own and resets nothing
+            if not ending or ending[0] not in 'RXIKT':
                 return False
-            want = 'aborted:term:' + ending[1:] if ending[0] == 'R' else 'aborted:app:' + ending[1:]
-            return final == want and extra.get('close') == '-'
+            from props.c02 import aborted_name
+            return final == aborted_name(ending) and extra.get('close') in ('-', '*') and extra.get('reset') == '-'
         return False
 
     def nontrivial_key(self, case, impl_out):
